@@ -49,6 +49,9 @@ def run(chk, tier, proof_ok):
                               'oracle': 'states of all levels captured before/after each real swap_temperatures(); '
                               'stored rows; row views against an independent per-chain log of sweeps since the last clear'}
     chk.coverage['evaluations'] = chk.coverage.get('evaluations', 0) + len(cases)
+    tf, tst = realsearch.tall_ladder_rows_findings(chk.seed, 140 if tier == 'quick' else 300, 3)
+    findings = findings + tf
+    chk.coverage['search']['tall_ladder'] = tst
     _plumb.report(chk, proof_ok, divs, errs, findings)
 
 
